@@ -1,6 +1,6 @@
 (* Props/C06.v -- property C06: server transactions deliver the final response reliably. Statements only. *)
 From Coq Require Import List NArith.
-From EZK Require Import Gen.Tables Model.Tsx Proofs.C05 Proofs.C06 Model.C12o Proofs.C12o.
+From EZK Require Import Model.Forms8 Proofs.Forms8 Gen.Tables Model.Tsx Proofs.C05 Proofs.C06 Model.C12o Proofs.C12o.
 Import ListNotations.
 Open Scope N_scope.
 
@@ -70,3 +70,17 @@ Proof. exact unbounded_refuses_nothing. Qed.
 
 Theorem C06_bounded_queue_refuted : forall c n, (c < n)%nat -> (0 < refused_of (Some c) n)%nat.
 Proof. exact bounded_refuses. Qed.
+
+(* "every provisional response is sent once per call": respond_provisional is one transmission and leaves the copies of the INVITE that
+   wait in the queue where they are, so the final response still answers each of them; a form that answers the waiting copies with the
+   1xx sends it 1 + waiting times and leaves nothing for the final *)
+Theorem C06_provisional_guard : provisional_ignores_queue = true.
+Proof. reflexivity. Qed.
+
+Theorem C06_provisional_once_per_call : provisional_ignores_queue = true ->
+  forall waiting, fst (provisional waiting) = 1%nat /\ final_at_call (snd (provisional waiting)) = (1 + waiting)%nat.
+Proof. exact provisional_here. Qed.
+
+Theorem C06_provisional_draining_refuted : forall waiting, (0 < waiting)%nat ->
+  fst (provisional_form false waiting) <> 1%nat /\ final_at_call (snd (provisional_form false waiting)) <> (1 + waiting)%nat.
+Proof. exact provisional_draining. Qed.
